@@ -99,6 +99,45 @@ def csr_models():
                 alts.append((("ADV", a[0], PyVec([v.items[i] for i in perm]), Tup([])), cons, "sorted as %s" % (perm,)))
         return alts
 
+    def m_partition_point(ex, st, a, dst, callee):
+        """slice::partition_point(pred) = std's binary_search_by(|x| if pred(x) { Less } else { Greater }) (same probe sequence)."""
+        m = re.search(r"\{closure@([^}]*)\}", callee)
+        v = buf_of(ex, st, a[0])
+        fn = ex.mf.resolve_closure(m.group(1)) if m else None
+        if fn is None:
+            return None
+        st.env["$pp_closure"] = a[1]
+        n = len(v.items)
+        results = []
+
+        def probe(i, cons):
+            s2 = st.fork()
+            s2.pc += cons
+            r = subcall(ex, s2, fn, [Ref("$pp_closure"), Ref(a[0].root, list(a[0].projs) + [("elem", i)])])
+            if isinstance(r, str):
+                raise Unsupported("partition_point predicate can panic: " + r)
+            out = []
+            for val, extra in r:
+                for flag, c in ((True, val == TRUE), (False, val == FALSE)):
+                    if ex.feasible(s2.pc + extra, c):
+                        out.append((flag, cons + extra + [c]))
+            return out
+
+        def go(base, size, cons):
+            if size == 0:
+                results.append((bv(0, 64), cons, None))
+                return
+            if size > 1:
+                half = size // 2
+                mid = base + half
+                for is_less, c2 in probe(mid, cons):
+                    go(mid if is_less else base, size - half, c2)
+                return
+            for is_less, c2 in probe(base, cons):
+                results.append((bv(base + (1 if is_less else 0), 64), c2, None))
+        go(0, n, [])
+        return results
+
     def m_first(ex, st, a, dst, callee):
         v = buf_of(ex, st, a[0])
         if not v.items:
@@ -175,6 +214,7 @@ def csr_models():
             (r"^<Enumerate<std::slice::Iter<'_, EdgeRecord>> as Iterator>::map::<", m_enum_map),
             (r"^<std::iter::Map<Enumerate<std::slice::Iter<'_, EdgeRecord>>, .*> as Iterator>::collect::<Vec<", m_collect),
             (r"slice::<impl \[nervusdb_api::EdgeKey\]>::sort_by_key::<", m_sort_by_key),
+            (r"slice::<impl \[.*\]>::partition_point::<", m_partition_point),
             (r"slice::<impl \[nervusdb_api::EdgeKey\]>::(first|last)$", m_first), (r"^std::vec::from_elem::<u64>$", m_from_elem),
             (r"^<Vec<nervusdb_api::EdgeKey> as IntoIterator>::into_iter$", m_vec_into_iter),
             (r"^<std::vec::IntoIter<nervusdb_api::EdgeKey> as Iterator>::next$", m_list_next), (r"^<u32 as Ord>::(min|max)$", m_min),
